@@ -52,6 +52,27 @@ class AM:
         return False
 
 
+class BridgeMgr:
+    """an async manager whose __aenter__ (when="enter") or __aexit__ (when="exit") IS the callee: it runs the next async
+    frame of the script.  Used through `with greenback.async_context(...)` from a synchronous frame."""
+
+    def __init__(self, ctl, idx, when):
+        self.ctl, self.idx, self.when = ctl, idx, when
+
+    def __bool__(self):
+        return False
+
+    async def __aenter__(self):
+        if self.when == "enter":
+            await a_frame(self.ctl, self.idx)
+        return self
+
+    async def __aexit__(self, *exc):
+        if self.when == "exit":
+            await a_frame(self.ctl, self.idx)
+        return False
+
+
 class Resumed(Exception):
     pass
 
@@ -97,6 +118,10 @@ class Ctl:
             return ["U", f.pyframe.f_locals.get("idx")]
         if mod.startswith("greenback") and name in GB:
             return [GB[name], 0]
+        if mod.startswith("greenback") and name in ("__enter__", "__exit__") and f.clsname == "async_context":
+            return ["ACE" if name == "__enter__" else "ACX", 0]
+        if name in ("__aenter__", "__aexit__") and f.pyframe.f_globals is globals() and isinstance(f.pyframe.f_locals.get("self"), BridgeMgr):
+            return ["MEN" if name == "__aenter__" else "MEX", 0]
         if mod.startswith("outcome") and name == "send":
             return ["SEND", 0]
         if mod.startswith("trio") and name == "wait_task_rescheduled":
@@ -131,7 +156,7 @@ class Ctl:
             if cm == "none":
                 wantc = []
             else:
-                wantc = [(self.mgrs.get(x["u"] + 1), cm == "async", False)]
+                wantc = [(self.mgrs.get(x["u"] + 1), cm == "async", cm == "gbx")]
             ok = len(got) == len(wantc) and all(g[0] is w[0] and g[1:] == w[1:] for g, w in zip(got, wantc))
             if not ok:
                 self.bad.append(dict(info, what="contexts of user frame %d: %s, spec %s (%s)" % (
@@ -253,7 +278,12 @@ def s_frame(ctl, idx):
         if act is None or act["a"] == "ret":
             return
         e = act["edge"]
-        if act["cm"] == "sync":
+        if e in ("actx_en", "actx_ex"):
+            m = BridgeMgr(ctl, idx + 1, "enter" if e == "actx_en" else "exit")
+            ctl.mgrs[idx + 1] = m
+            with greenback.async_context(m):
+                pass
+        elif act["cm"] == "sync":
             with ctl.new_mgr(idx + 1, M):
                 if e == "call":
                     s_frame(ctl, idx + 1)
